@@ -58,7 +58,8 @@ manifest = {
     "hooks": {
         "guard": "WANNIERBERRI_VERIF",
         "enable": "no source hooks are needed: checks import /repo's working tree in-process (PYTHONPATH=/repo) and "
-                  "observe run() through its own restart files, a stub `ray` module and a patched glob.glob",
+                  "observe run() through its own restart files, a stub `ray` module, a patched glob.glob, and a default fout_name for run() inside the "
+                  "check's scratch directory (in the harness process only; /repo's source is not edited)",
         "baseline_off_cmd": "cd /repo && /venv/bin/python -m pytest -ra -q -p no:cacheprovider --timeout=900 "
                             "--continue-on-collection-errors",
         "source_commits": [],
